@@ -9,6 +9,7 @@ from itertools import chain
 from typing import Any, Callable, Dict, List, Optional, Tuple, Union
 from warnings import warn
 
+import jax
 import jax.numpy as jnp
 import numpy as np
 import pandas as pd
@@ -734,22 +735,30 @@ class Module(ABC):
         they can be processed on GPU/TPU and such that the simulation can be
         differentiated. `.to_jax()` copies the `.nodes` to `.jaxnodes`.
         """
-        self.base.jaxnodes = {}
-        for key, value in self.base.nodes.to_dict(orient="list").items():
-            inds = jnp.arange(len(value))
-            self.base.jaxnodes[key] = jnp.asarray(value)[inds]
+        # `to_jax()` is also run while `jx.integrate` is being traced (`jit`, `grad`,
+        # `vmap`). The arrays are stored in the module, so they must be concrete values
+        # and not tracers of that transformation (which would leak out of it).
+        with jax.ensure_compile_time_eval():
+            self.base.jaxnodes = {}
+            for key, value in self.base.nodes.to_dict(orient="list").items():
+                inds = jnp.arange(len(value))
+                self.base.jaxnodes[key] = jnp.asarray(value)[inds]
 
-        # `jaxedges` contains only parameters (no indices).
-        # `jaxedges` contains only non-Nan elements. This is unlike the channels where
-        # we allow parameter sharing.
-        self.base.jaxedges = {}
-        edges = self.base.edges.to_dict(orient="list")
-        for i, synapse in enumerate(self.base.synapses):
-            condition = np.asarray(edges["type_ind"]) == i
-            for key in synapse.synapse_params:
-                self.base.jaxedges[key] = jnp.asarray(np.asarray(edges[key])[condition])
-            for key in synapse.synapse_states:
-                self.base.jaxedges[key] = jnp.asarray(np.asarray(edges[key])[condition])
+            # `jaxedges` contains only parameters (no indices).
+            # `jaxedges` contains only non-Nan elements. This is unlike the channels
+            # where we allow parameter sharing.
+            self.base.jaxedges = {}
+            edges = self.base.edges.to_dict(orient="list")
+            for i, synapse in enumerate(self.base.synapses):
+                condition = np.asarray(edges["type_ind"]) == i
+                for key in synapse.synapse_params:
+                    self.base.jaxedges[key] = jnp.asarray(
+                        np.asarray(edges[key])[condition]
+                    )
+                for key in synapse.synapse_states:
+                    self.base.jaxedges[key] = jnp.asarray(
+                        np.asarray(edges[key])[condition]
+                    )
 
     def show(
         self,
